@@ -686,7 +686,10 @@ func (c *Conn) utlsPickTLSVersion(hello *clientHelloMsg, serverHello *serverHell
 	if serverHello.supportedVersion != 0 {
 		peerVersion = serverHello.supportedVersion
 	}
+	// (Not with an ECH config list: uTLS leaves the Config's range alone then, and
+	// the Config refuses everything below TLS 1.3 on purpose.)
 	if _, ok := c.config.mutualVersion(roleClient, []uint16{peerVersion}); !ok &&
+		c.config.EncryptedClientHelloConfigList == nil &&
 		peerVersion >= VersionTLS10 && peerVersion <= VersionTLS13 &&
 		slices.Contains(hello.supportedVersions, peerVersion) {
 		c.vers = peerVersion
